@@ -7,9 +7,11 @@ from sklearn.utils import check_random_state
 
 def check_groups(groups, n_features_in):
     if groups is not None:
+        # A group given as a tuple would index a single element W[i, j] instead of the rows W[[i, j]]
+        groups = [list(g) for g in groups]
         all_indices = []
         for g in groups:
-            all_indices.extend(list(g))
+            all_indices.extend(g)
         # Ensure that the indices are valid
         if min(all_indices) < 0 or max(all_indices) >= n_features_in:
             raise ValueError(f"Indices passed to the groups argument should be contained in [0, {n_features_in}]")
